@@ -8,7 +8,7 @@ condition add·wait·post / join / create / cancel / exit, and any sequence of m
 operations (new / resume / cancel / cleanup / pass), each followed by one loop pass.
 The counterexample theorems are about `run initOrig …`, the model of the code as found.
 -/
-import TboxModel.C18.Tower
+import TboxModel.C18.Cleanup
 namespace Tbox.C18
 
 /-- the invariant (Spec.lean: `InvS` structural, `InvL` trace-level) holds in every reachable state -/
@@ -32,13 +32,17 @@ theorem C18_mutex_exclusive (ops : List MainOp) (m : Nat) :
   refine ⟨?_, h⟩
   rw [h]; cases ((run init ops).mx m).hold <;> simp
 
-/-- **semaphore bound**: successful acquisitions never exceed releases plus the initial count
-(`init` is the constructor argument `Semaphore(sch, k)`; no operation of the model writes it). -/
+/-- **semaphore bound**: successful acquisitions never exceed releases plus the initial count.
+`init` is the constructor argument of `Semaphore(sch, k)`; no operation writes it (frame clause
+`semInit` of the invariant), so the bound is about the real initial count `k` of semaphore `k`. -/
 theorem C18_semaphore_bound (ops : List MainOp) (k : Nat) :
-    acqOf k (run init ops).log ≤ ((run init ops).sm k).init + relOf k (run init ops).log ∧
-    acqOf k (run init ops).log + ((run init ops).sm k).count = ((run init ops).sm k).init + relOf k (run init ops).log := by
+    acqOf k (run init ops).log ≤ k + relOf k (run init ops).log ∧
+    acqOf k (run init ops).log + ((run init ops).sm k).count = k + relOf k (run init ops).log ∧
+    ((run init ops).sm k).init = k := by
   have h := (C18_reachable_inv ops).1.L.semCount k
-  exact ⟨by omega, h⟩
+  have hi := (C18_reachable_inv ops).1.L.semInit k
+  rw [hi] at h
+  exact ⟨by omega, h, hi⟩
 
 /-- **no lost wake-up**, at every moment (not only when the ready queue is empty): a routine
 suspended in `>>` / `lock` / `acquire` implies that the channel is empty / the mutex is held /
@@ -82,26 +86,36 @@ theorem C18_no_lost_wakeup_quiescent (ops : List MainOp) (hq : (run init ops).re
   rw [h.2, hq] at this
   cases this
 
-theorem finish_ctl (s : State) (me : Nat) (op : Op) (rest : List Op) (res : Res) : (finish s me op rest res).2 ≠ .block := by
-  unfold finish; simp only []; split <;> simp
-
 /-- **cancel unblocks** (1): a cancelled routine never switches back to the main context again —
 no operation of its script blocks, whatever the state of the primitives (so after `cancel r` or
 `cleanup()` the routine runs to the end of its script the next time it is switched to). -/
 theorem C18_cancel_unblocks (s : State) (me : Nat) (op : Op) (rest : List Op) (hc : (s.R me).canceled = true) :
-    (execOp s me op rest).2 ≠ .block := by
-  cases op <;> simp only [execOp, waitBlock, hc] <;> repeat' split
-  all_goals first
-    | exact finish_ctl _ _ _ _ _
-    | simp_all [State.R, State.setR, State.setBc, State.setCh, State.setMx, State.setSm, tagIf]
+    (execOp s me op rest).2 ≠ .block :=
+  C18_cancel_unblocks' s me op rest hc
 
--- OPEN (full strength of "cleanup terminates with every routine dead"):
---   theorem C18_cleanup_all_dead (ops) : ∀ r < (run init ops).n, after `.cleanup` ((…).R r).freed = true ∧ stuck = false
--- Proved instead: `C18_cancel_unblocks` (no operation of a cancelled routine can block, so every
--- switch made by `cleanup()` runs the routine to the end of its finite script) and the invariant
--- through `cleanup` (`cleanup_inv`).  What is missing is the cabinet bookkeeping lemma "every live
--- routine sits in its cell, so one sweep visits it"; the model reports a second non-empty sweep as
--- `stuck`, the driver prints it, and the differential run has never seen it.
+/-- the cabinet bookkeeping holds in every reachable state: every live routine sits in its own
+cell, the free list names empty cells only (so `cleanup()`'s `foreach` visits every live routine) -/
+theorem C18_reachable_cab (ops : List MainOp) : Cab (run init ops) :=
+  run_cab ops init_cab init_inv rfl
+
+/-- **cleanup terminates**: in every reachable state, for all scripts, ONE pass of the
+`while (!routine_cabinet.empty()) foreach(switchToRoutine)` loop empties the cabinet — the loop
+body runs at most once (the model's fuel of two passes is never exhausted: `stuck = false`). -/
+theorem C18_cleanup_terminates (ops : List MainOp) :
+    let s := run init ops
+    cabinetEmpty (sweep (markAll s).cells.length 0 (markAll s)) = true ∧ (cleanup s).stuck = false :=
+  ⟨(cleanup_one_sweep (C18_reachable_cab ops) (C18_reachable_inv ops).1).1,
+   (cleanup_all_freed (C18_reachable_cab ops) (C18_reachable_inv ops).1).2.1⟩
+
+/-- **cleanup leaves every routine dead**: when `cleanup()` returns, every routine ever created
+has terminated and been deleted (unstarted ones deleted directly, started ones cancelled and run
+to the end of their script), and the invariant still holds. -/
+theorem C18_cleanup_all_dead (ops : List MainOp) (r : Nat) (hr : r < (cleanup (run init ops)).n) :
+    ((cleanup (run init ops)).R r).freed = true ∧ ((cleanup (run init ops)).R r).state = .dead ∧
+    Inv (cleanup (run init ops)) := by
+  have hf := (cleanup_all_freed (C18_reachable_cab ops) (C18_reachable_inv ops).1).1 r hr
+  have hi := cleanup_inv (C18_reachable_inv ops).1
+  exact ⟨hf, hi.S.freedDead r hf, hi⟩
 
 /-- a blocking operation of the property -/
 def blocking : Op → Bool
@@ -114,6 +128,43 @@ theorem C18_cancel_fails (s : State) (me : Nat) (op : Op) (rest : List Op) (hc :
     (execOp s me op rest).1.log = s.log ++ [{ r := me, op := op, res := .fail, canc := true }] := by
   simp only [State.R] at hc hi
   cases op <;> simp [blocking] at hb <;> simp [execOp, hc, hi, finish, tag, State.R, State.setR, State.setCd]
+
+/-- a cancelled routine (by `cancel` or by `cleanup()`) that is switched to runs to the end of its
+script in that one switch, is deleted, and — if it was blocked in an operation — the first thing it
+logs is the failure of that pending call.  (`switch_clean` shows that `cleanup()` makes exactly this
+switch for every routine still in the cabinet.) -/
+theorem C18_cancelled_switch_terminates (s : State) (r : Nat) (op : Op) (rest : List Op) (hic : s.inCleanup = true)
+    (hc : (s.R r).canceled = true) (hi : (s.R r).inOp = true) (hs : (s.R r).script = op :: rest)
+    (hb : blocking op = true) :
+    ((switchTo s r).R r).freed = true ∧
+    s.log ++ [{ r := r, op := op, res := .fail, canc := true }] <+: (switchTo s r).log := by
+  have hc1 : ((s.setR r { s.R r with state := .running, started := true }).R r).canceled = true := by
+    simp only [State.R, State.setR, ite_true]; exact hc
+  have hi1 : ((s.setR r { s.R r with state := .running, started := true }).R r).inOp = true := by
+    simp only [State.R, State.setR, ite_true]; exact hi
+  have hs1 : ((s.setR r { s.R r with state := .running, started := true }).R r).script = op :: rest := by
+    simp only [State.R, State.setR, ite_true]; exact hs
+  have k2 := runOps_canceled r (op :: rest) (s := s.setR r { s.R r with state := .running, started := true }) hic hc1
+  have hfail := C18_cancel_fails (s.setR r { s.R r with state := .running, started := true }) r op rest hc1 hi1 hb
+  have nb := C18_cancel_unblocks' (s.setR r { s.R r with state := .running, started := true }) r op rest hc1
+  have hlog : s.log ++ [{ r := r, op := op, res := .fail, canc := true }] <+:
+      (runOps r (op :: rest) (s.setR r { s.R r with state := .running, started := true })).log := by
+    simp only [runOps]
+    split
+    · rename_i s1 e; rw [e] at hfail
+      have hf' : s1.log = s.log ++ [{ r := r, op := op, res := .fail, canc := true }] := hfail
+      rw [← hf']; exact runOps_log r rest s1
+    · rename_i s1 e; rw [e] at nb; exact absurd rfl nb
+    · rename_i s1 e; rw [e] at hfail
+      have hf' : s1.log = s.log ++ [{ r := r, op := op, res := .fail, canc := true }] := hfail
+      rw [← hf']; simp [die]
+  unfold switchTo
+  simp only [hs1, k2.2, ite_true]
+  refine ⟨?_, ?_⟩
+  · have := ((SameC.refl (freeRoutine (runOps r (op :: rest) (s.setR r { s.R r with state := .running, started := true })) r)).resumeOpt
+      ((freeRoutine (runOps r (op :: rest) (s.setR r { s.R r with state := .running, started := true })) r).R r).joiner).fr r
+    rw [this.1]; simp [freeRoutine, State.R, State.setR]
+  · simpa [freeRoutine] using hlog
 
 /-- **join**: a routine waiting in `join t` (and not cancelled) is the one registered joiner of a
 target that has not finished; `switchToRoutine` resumes exactly that joiner when the target dies
@@ -131,6 +182,20 @@ theorem C18_join_single (s : State) (me t : Nat) (rest : List Op) (hi : (s.R me)
     (execOp s me (.join t) rest).1.log = s.log ++ [{ r := me, op := .join t, res := .fail, canc := false }] := by
   simp only [State.R] at hi hc hd hj
   simp [execOp, hi, hc, ha, hd, hj, finish, State.R, State.setR]
+
+/-- OBSERVATION (not a violation of the statement, reported): `join` on a target that has already
+finished returns at once — but with FAILURE: a finished routine is freed from the cabinet
+immediately, so `routine_cabinet.at(token)` is null and the `state == kDead → return true` branch
+of `Scheduler::join` is dead code.  The statement only asks that join *returns* once the target
+has finished; the result value is the code's documented-but-unreachable "success". -/
+theorem C18_join_finished_returns_failure (s : State) (me t : Nat) (rest : List Op) (hi : (s.R me).inOp = false)
+    (hc : (s.R me).canceled = false) (ht : (s.R t).freed = true) :
+    (execOp s me (.join t) rest).2 ≠ .block ∧
+    (execOp s me (.join t) rest).1.log = s.log ++ [{ r := me, op := .join t, res := .fail, canc := false }] := by
+  have ha : alive s t = false := by simp [alive, ht]
+  simp only [State.R] at hi hc
+  simp [execOp, hi, hc, ha, finish, State.R, State.setR]
+  split <;> simp
 
 /-! ### the code as found (DESIGN §7 row 10): counterexamples on `initOrig` -/
 
